@@ -123,3 +123,16 @@ Theorem C06_with_name_readback : forall (B : backend) (u : url) (nm : str) (kq k
   raw_name u' = Q B PATH_QUOTER nm /\ name B u' = nm.
 Proof. exact with_name_readback. Qed.
 Print Assumptions C06_with_name_readback.
+
+(** Tie to the source by translation: the decoded accessors user, password, path, path_safe
+    (and raw_path, absolute) of class URL are re-read from the working tree on every run and
+    proved equal to the model's accessors. *)
+From Yarl Require Import Model.Url Model.GenTypes Generated.UrlGen Proofs.GenUrlProofs.
+Theorem C06_source_user_password : forall (B : backend) (u : url),
+  gen_user B u = user B u /\ gen_password B u = password B u.
+Proof. exact gen_user_ok. Qed.
+Print Assumptions C06_source_user_password.
+Theorem C06_source_path_accessors : forall (B : backend) (u : url),
+  gen_raw_path u = raw_path u /\ gen_path B u = path B u /\ gen_path_safe B u = path_safe B u /\ gen_absolute u = absolute u.
+Proof. exact gen_path_accessors_ok. Qed.
+Print Assumptions C06_source_path_accessors.
